@@ -350,7 +350,16 @@ void Connection::stop()
 	scout_debug << "Connection::stop() => _reader.stop()";
 	_reader.stop();
 	if (_reader.started())
-		_reader.socket()->shutdown();
+	{
+		try
+		{
+			_reader.socket()->shutdown();
+		}
+		catch (Poco::Net::NetException& e) // the peer may already have gone; this also runs from the destructor
+		{
+			scout_debug << "Connection::stop() shutdown: " << e.what();
+		}
+	}
 	_reader.join();
 }
 
